@@ -579,6 +579,14 @@ def m_get(c):
         return
     ln, l = len_lin(c, arr, loc)
     elem = arr.elem if not arr.elem.is_bot() else Top()
+    if arr.cells:
+        # elements known by position: the one asked for when the index is known, otherwise any of those the index may denote
+        if i.is_const() and i.lo in arr.cells:
+            elem = arr.cells[i.lo]
+        else:
+            for k, x in arr.cells.items():
+                if i.lo <= k <= i.hi:
+                    elem = join_val(elem, x)
     may_some = not prove_le(c.st, l, il, ln, i)
     may_none = not (il is not None and l is not None and c.st.entails_le(il - l + 1)) and not (i.hi < ln.lo)
     if may_none:
@@ -616,6 +624,9 @@ def m_last(c):
     pos = 0 if is_first else (ln.lo - 1 if ln.is_const() else None)
     if pos is not None and arr.cells and pos in arr.cells and not c.name.endswith("_mut"):
         elem = arr.cells[pos]
+    elif pos is None and arr.cells:
+        for x in arr.cells.values():       # the last element of a container of unknown length may be any of the known ones
+            elem = join_val(elem, x)
     nonempty = ln.lo >= 1 or (l is not None and c.st.entails_le(LinForm.constant(1) - l))
     if not nonempty:
         s0 = c.fork()
